@@ -276,3 +276,24 @@ def generate_behaviours(module, cfg, outpath, timeout=1800, heap="8g"):
                 n += 1
     gen, dist = parse_stats(out)
     return n, dist, gen
+
+
+def run_tlaps(module, timeout=600):
+    """Check spec/proofs/<module>.tla with the TLA+ proof system (tlapm).  Returns number of
+    obligations proved; raises MachineryError if some obligation fails."""
+    d = os.path.join(OUT, "tlaps", uuid.uuid4().hex)
+    os.makedirs(d, exist_ok=True)
+    shutil.copy(os.path.join(SPEC, "proofs", module + ".tla"), d)
+    try:
+        p = subprocess.run(["tlapm", "--toolbox", "0", "0", module + ".tla"], cwd=d, stdout=subprocess.PIPE,
+                           stderr=subprocess.STDOUT, text=True, timeout=timeout)
+    except subprocess.TimeoutExpired:
+        raise MachineryError("tlapm timed out on " + module)
+    finally:
+        pass
+    out = p.stdout
+    shutil.rmtree(d, ignore_errors=True)
+    m = re.search(r"All (\d+) obligations? proved", out)
+    if not m:
+        raise MachineryError("TLAPS did not prove %s:\n%s" % (module, out[-2000:]))
+    return int(m.group(1))
